@@ -80,10 +80,20 @@ def run_check(prop: str, tier: str = "quick", seed: int = 0, replay: str | None 
     modname = f"checks.{prop.lower()}"
     os.environ["VERIF_TIER"] = tier
     chk = importlib.import_module(modname)
-    # runs against another checkout (VERIF_SRC: mutants, seeded changes) get their own directory so that they can run next
-    # to a check of /repo itself
-    work = WORK / (f"{prop}_{tier}" + (f"_src{os.getpid()}" if os.environ.get("VERIF_SRC") else ""))
-    shutil.rmtree(work, ignore_errors=True)
+    # every invocation works in its own directory (<prop>_<tier>_<pid>) so that two runs of one check -- against /repo and
+    # against another checkout (VERIF_SRC), or two seeds side by side -- never touch each other's files; directories left
+    # behind by runs that are no longer alive are removed first
+    for d in WORK.glob(f"{prop}_{tier}*"):
+        tail = d.name[len(f"{prop}_{tier}"):].lstrip("_").replace("src", "")
+        alive = False
+        if tail.isdigit():
+            try:
+                os.kill(int(tail), 0); alive = True
+            except OSError:
+                alive = False
+        if not alive:
+            shutil.rmtree(d, ignore_errors=True)
+    work = WORK / f"{prop}_{tier}_{os.getpid()}"
     work.mkdir(parents=True, exist_ok=True)
     log = (lambda *a: print(*a, flush=True)) if verbose else (lambda *a: None)
     rng = random.Random(seed)
@@ -358,5 +368,12 @@ def main(argv=None):
         rc = run_check(a.prop.upper(), a.tier, a.seed, a.replay, a.keep)
     except Machinery as ex:
         print(f"MACHINERY-FAILURE property={a.prop.upper()}: {ex}", flush=True)
+        rc = 2
+    except BaseException as ex:          # never let an internal error look like a verdict (an uncaught exception exits 1)
+        if isinstance(ex, SystemExit):
+            raise
+        import traceback
+        traceback.print_exc()
+        print(f"MACHINERY-FAILURE property={a.prop.upper()}: internal error {type(ex).__name__}: {ex}", flush=True)
         rc = 2
     sys.exit(rc)
